@@ -32,6 +32,7 @@ from pathlib import Path
 REPO = Path(os.environ.get("AGP_TPF_REPO", "/repo"))
 SRC = REPO / "src" / "tola"
 HERE = Path(__file__).resolve().parent
+OUT2 = Path(__file__).resolve().parent.parent / "lean" / "AgpTpf" / "Gen" / "Imp2.lean"
 OUT = HERE.parent / "lean" / "AgpTpf" / "Gen" / "Imp.lean"
 
 
@@ -46,6 +47,10 @@ def L(t):
 
 def O(t):
     return ("opt", t)
+
+
+HAPSET = ("dict", ("opt", "str"), ("list", "bsref"))      # ChrGroup.data[hap]: original name -> scaffolds
+GDATA = ("dict", "str", HAPSET)                            # ChrGroup.data
 
 
 def lean_ty(t):
@@ -71,7 +76,7 @@ def lean_ty(t):
             return "(" + " → ".join([lean_ty(a) for a in t[1]] + [res]) + ")"
     return {"int": "Int", "bool": "Bool", "str": "Str", "bytes": "(List Nat)", "row": "Row", "frag": "Fragment", "gap": "Gap",
             "ovres": "OverlapResult", "scaffold": "Scaffold", "bytesio": "PyRt.BytesIO", "unit": "Unit", "sink_str": "Str",
-            "sink_bytes": "(List Nat)", "nat": "Nat", "trtable": "(Char → Char)", "fastainfo": "FastaInfo", "ovref": "Nat", "premise": "Premise", "store": "(List Res)", "scref": "Nat", "ffref": "Nat", "found": "Found", "namer": "PyRt.SrcNamer", "lref": "Nat", "junction": "Junction", "assembly": "Assembly", "path": "Str", "fh": "Str", "bref": "PyRt.BuiltRef", "bsref": "Nat", "keytok": "PyRt.KeyTok"}[t]
+            "sink_bytes": "(List Nat)", "nat": "Nat", "trtable": "(Char → Char)", "fastainfo": "FastaInfo", "ovref": "Nat", "premise": "Premise", "store": "(List Res)", "scref": "Nat", "ffref": "Nat", "found": "Found", "namer": "PyRt.SrcNamer", "lref": "Nat", "junction": "Junction", "assembly": "Assembly", "path": "Str", "fh": "Str", "bref": "PyRt.BuiltRef", "bsref": "Nat", "keytok": "PyRt.KeyTok", "gref": "Nat", "aref": "Nat", "asmobj": "PyRt.AsmObj", "tabres": "Bool", "tsink": "Unit"}[t]
 
 
 # OBJECT TABLE: (type, python attribute) -> (result type, lean template, may raise)
@@ -122,6 +127,11 @@ ATTR = {
     ("premise", "overhang_error_delta_if_applied"): ("int", "(Premise.delta {0} store)", True),
     ("ovres", "name"): ("str", "{0}.name", False), ("ovres", "original_name"): (O("str"), "{0}.originalName", False),
     ("ovres", "original_tags"): (O(L("str")), "{0}.originalTags", False),
+    # phase 2: `Scaffold.fragments_length` is the translated kernel (tied to the model's `fragmentsLength` by C17Imp)
+    ("scaffold", "fragments_length"): ("int", "(Scaffold_fragments_length {0})", True),
+    ("asmobj", "name"): ("str", "{0}.name", False), ("asmobj", "curated"): ("bool", "{0}.curated", False),
+    ("asmobj", "scaffolds"): (L("bsref"), "{0}.scaffolds", False),
+    ("tabres", "errors"): ("bool", "{0}", False),
 }
 # writable attributes: (type, attr) -> lean field
 FIELD = {("ovres", "start"): "start", ("ovres", "end"): "stop", ("ovres", "rows"): "rows", ("scaffold", "rows"): "rows", ("assembly", "name"): "name", ("assembly", "curated"): "curated", ("assembly", "scaffolds"): "scaffolds", ("namer", "autosome_prefix"): "autosome_prefix", ("namer", "current_scaffold_name"): "current_scaffold_name", ("namer", "current_rank"): "current_rank", ("namer", "current_haplotype"): "current_haplotype", ("namer", "haplotig_n"): "haplotig_n", ("namer", "haplotig_scaffolds"): "haplotig_scaffolds", ("namer", "primary_haplotype"): "primary_haplotype", ("namer", "target_tags"): "target_tags", ("namer", "unloc_n"): "unloc_n", ("namer", "unloc_scaffolds"): "unloc_scaffolds", ("namer", "haplotype_lc_dict"): "haplotype_lc_dict"}
@@ -168,13 +178,22 @@ REGEX = {r"\s*$": ("(isBlankLine {0})", "bool", "match"),
          r"([A-Z]\d*|[IVX_]+|\d+[A-Z]+)": ("(isChrNameTag {0})", "bool", "fullmatch"),
          r"^([^_]+)_.+_\d+$": ("(hapPrefixOfName {0})", O(("match", 1)), "search")}
 ERR_CATCH = {"FileExistsError": "fileExists"}
-ERR = {"TaggingError": "tagging", "ValueError": "value", "IndexError": "index", "KeyError": "key", "TypeError": "type", "NotImplementedError": "notImpl"}
+ERR = {"ChrNamerError": "chrNamer", "TaggingError": "tagging", "ValueError": "value", "IndexError": "index", "KeyError": "key", "TypeError": "type", "NotImplementedError": "notImpl"}
 RESERVED = {"end", "from", "at", "in", "do", "then", "else", "if", "let", "have", "show", "fun", "match", "with", "where", "by", "open",
-            "section", "namespace", "def", "theorem", "instance", "structure", "class", "deriving", "import", "max", "min", "new", "this", "rows"}
+            "section", "namespace", "def", "theorem", "instance", "structure", "class", "deriving", "import", "max", "min", "new", "this", "rows", "prefix"}
 
 
 def mg(n):
     return n + "_v" if n in RESERVED else n
+
+
+# PHASE 2 (generic calls between translated kernels): the signature every kernel ends up with is recorded when it is translated, and a call of
+# a method that IS a translated kernel (of a class listed here) becomes a call of that Lean definition — parameters and results are matched
+# BY NAME (see Kernel.kcall)
+SIGS = {}      # lean name -> dict(params=[(name, type)], roots=[(name, type)], ret=type, fuel=bool, spec=spec, pyargs=[python parameter names])
+KM = {}        # (python class, method) -> lean name, for the kernels whose spec says `p2=True`
+REF_CLASS = {"gref": "ChrGroup", "aref": "Assembly"}       # reference types whose objects live in an arena: class of the object
+SINK_CLASSES = ("TerminalTable",)                            # report objects: only "was an error marked" is kept (type `tabres`)
 
 
 def lit_str(s):
@@ -189,6 +208,27 @@ def exits(stmts):
             if isinstance(n, (ast.Return, ast.Break, ast.Continue, ast.Raise)):
                 return True
     return False
+
+
+def definitely_assigns(stmts, name):
+    """is `name` assigned on every path through the statement list? (plain assignments and walrus tests; if/else needs both branches)"""
+    for s in stmts:
+        if isinstance(s, ast.Assign) and any(isinstance(t, ast.Name) and t.id == name for t in s.targets):
+            return True
+        if isinstance(s, ast.If):
+            if isinstance(s.test, ast.NamedExpr) and s.test.target.id == name:
+                return True
+            if s.orelse and definitely_assigns(s.body, name) and definitely_assigns(s.orelse, name):
+                return True
+    return False
+
+
+def DEFAULT_OF(ty):
+    if isinstance(ty, tuple) and ty[0] == "opt":
+        return "none"
+    if isinstance(ty, tuple) and ty[0] in ("list", "dict", "set"):
+        return "[]"
+    return {"int": "0", "bool": "false", "str": "[]", "nat": "0"}[ty]
 
 
 def always_exits(stmts):
@@ -211,6 +251,8 @@ def assigned(stmts):
             out.append(n)
 
     def root_of(e):
+        if isinstance(e, ast.Starred):
+            e = e.value
         while isinstance(e, (ast.Attribute, ast.Subscript)):
             e = e.value
         return e.id if isinstance(e, ast.Name) else None
@@ -227,6 +269,8 @@ def assigned(stmts):
                         add("store")
                     if isinstance(t, ast.Attribute) and t.attr in ("rank", "tag", "haplotype", "input_predecessor"):
                         add("heap_lo")
+                    if isinstance(t, ast.Attribute) and t.attr == "name":
+                        add("heap_b")
             if isinstance(n, ast.Call) and isinstance(n.func, ast.Attribute) and n.func.attr == "append" and isinstance(n.func.value, ast.Call) \
                     and isinstance(n.func.value.func, ast.Attribute) and n.func.value.func.attr == "setdefault" and dotted(n.func.value.func.value):
                 add(dotted(n.func.value.func.value).replace(".", "_"))
@@ -287,6 +331,39 @@ def assigned(stmts):
                     add("nextOid")
             elif isinstance(n, (ast.Assign, ast.AugAssign)) and False:
                 pass
+            if isinstance(n, ast.Call) and isinstance(n.func, ast.Attribute) and any(m == n.func.attr for _, m in KM):
+                # a method that is a translated kernel: everything the callee returns may change (over-approximation; names the caller does
+                # not hold are ignored by the callers of `assigned`)
+                for (cls_, m_), lean_ in KM.items():
+                    sig_ = SIGS.get(lean_)
+                    if m_ != n.func.attr or sig_ is None:
+                        continue
+                    for rn, _ in sig_["roots"]:
+                        pth_ = None
+                        for key_ in ("dict_roots", "attr_params"):
+                            for q in sig_["spec"].get(key_, {}):
+                                if q.replace(".", "_") == rn:
+                                    pth_ = q
+                        if pth_ and pth_.startswith("self."):
+                            add(rn)
+                            add("heap_g")
+                            add("heap_a")
+                            if dotted(n.func.value):
+                                add(dotted(n.func.value).replace(".", "_") + "_" + pth_[5:].replace(".", "_"))
+                        else:
+                            add(rn)
+            if isinstance(n, ast.Call) and isinstance(n.func, ast.Name) and n.func.id == "ChrGroup":
+                add("heap_g")
+            if isinstance(n, ast.Call) and isinstance(n.func, ast.Name) and n.func.id == "Assembly":
+                add("heap_a")
+            if isinstance(n, ast.Call) and isinstance(n.func, ast.Attribute) and n.func.attr in ("sort", "mark_error"):
+                r = root_of(n.func.value)
+                if r:
+                    add(r)
+                if dotted(n.func.value):
+                    add(dotted(n.func.value).replace(".", "_"))
+            if isinstance(n, ast.Call) and isinstance(n.func, ast.Attribute) and n.func.attr == "add_scaffold":
+                add("heap_a")
             if isinstance(n, ast.Call) and isinstance(n.func, ast.Name) and n.func.id == "compare_func":
                 add("over_pairs")
             elif isinstance(n, ast.For):
@@ -357,8 +434,10 @@ class Kernel:
             return term
         if ty == O("str"):
             return f"(PyRt.strTruthy {term})"       # None and "" are false
-        if isinstance(ty, tuple) and ty[0] == "opt" and isinstance(ty[1], tuple) and ty[1][0] in ("list", "set"):
+        if isinstance(ty, tuple) and ty[0] == "opt" and isinstance(ty[1], tuple) and ty[1][0] in ("list", "set", "dict"):
             return f"(match {term} with | some l => !l.isEmpty | none => false)"
+        if ty == "tabres":
+            return term
         if isinstance(ty, tuple) and ty[0] in ("list", "dict", "set") or ty in ("str", "bytes"):
             return f"(!({term}).isEmpty)"
         if ty == "int":
@@ -425,6 +504,17 @@ class Kernel:
             return nm, "int"
         if isinstance(e, ast.Attribute) and dotted(e) in CLASS_CONST:
             return CLASS_CONST[dotted(e)]
+        if isinstance(e, ast.Attribute) and dotted(e) in self.spec.get("properties", {}):
+            # a @property of the class whose body is `return <path>` (CHECKED against the source here): read through it
+            path = dotted(e)
+            target = self.spec["properties"][path]
+            cls = self.spec["qual"].split(".")[0]
+            pd = find_def(ast.parse((SRC / self.spec["file"]).read_text()), cls + "." + path.split(".")[-1])
+            ok = pd is not None and any(isinstance(d, ast.Name) and d.id == "property" for d in pd.decorator_list) and len(pd.body) == 1 \
+                and isinstance(pd.body[0], ast.Return) and dotted(pd.body[0].value) == target
+            if not ok:
+                raise Unsupported(f"{path} is not the property `return {target}` the kernel's spec says it is")
+            return self.expr(ast.parse(target, mode="eval").body, env, binds)
         if isinstance(e, ast.Attribute):
             # self.<declared attribute parameter>
             path = dotted(e)
@@ -447,6 +537,10 @@ class Kernel:
                 b, tb = f"(PyRt.loGet heap_lo {b}).1", "scaffold"
             if tb == "bsref":
                 b, tb = f"(PyRt.bsGet heap_b {b})", "scaffold"
+            if tb == "gref" and e.attr == "data" and "heap_g" in env:
+                return f"(PyRt.gGet heap_g {b})", GDATA
+            if tb == "aref" and "heap_a" in env:
+                b, tb = f"(PyRt.aGet heap_a {b})", "asmobj"
             tb_k = tb if isinstance(tb, str) else "-"
             key = (tb_k, e.attr.lstrip("_") if (tb_k, e.attr) not in ATTR else e.attr)
             if key not in ATTR:
@@ -491,6 +585,10 @@ class Kernel:
                         raise Unsupported("slice bound")
                     return f"(PyRt.sliceRevFrom {b} {t})", tb
                 raise Unsupported("slice step")
+            if isinstance(tb, tuple) and tb[0] == "opt" and isinstance(tb[1], tuple) and tb[1][0] in ("dict", "list") and not isinstance(e.slice, ast.Slice):
+                nm = self.fresh()
+                binds.append((nm, f"(PyRt.needArg {b})", tb[1]))      # None[...]: TypeError
+                b, tb = nm, tb[1]
             if isinstance(tb, tuple) and tb[0] == "dict":
                 k, tk = self.expr(e.slice, env, binds)        # d[k]: KeyError when absent
                 if tk != tb[1]:
@@ -516,7 +614,7 @@ class Kernel:
             raise Unsupported(f"subscript of {tb}")
         if isinstance(e, ast.Tuple) or isinstance(e, ast.List):
             # literal of homogeneous elements (a tuple used as a lookup table, a list of columns), `*x` splices a list
-            parts, ety = [], None
+            parts, ety, done = [], None, []
             for el in e.elts:
                 if isinstance(el, ast.Starred):
                     t, ty = self.expr(el.value, env, binds)
@@ -527,9 +625,10 @@ class Kernel:
                 else:
                     t, ty = self.expr(el, env, binds)
                     parts.append(("x", t))
+                    done.append((t, ty))
                     if ety is not None and ety != ty:
                         if isinstance(e, ast.Tuple) and not any(isinstance(x, ast.Starred) for x in e.elts):
-                            xs = [self.expr(x, env, binds) for x in e.elts]      # a record-like tuple
+                            xs = done + [self.expr(x, env, binds) for x in e.elts[len(done):]]      # a record-like tuple
                             return "(" + ", ".join(t for t, _ in xs) + ")", ("tuple", [ty for _, ty in xs])
                         raise Unsupported("heterogeneous literal")
                     ety = ty
@@ -629,6 +728,17 @@ class Kernel:
                         rt, rtt = CLASS_CONST[dotted(right)]
                     else:
                         rt, rtt = self.expr(right, env, binds)
+                    if isinstance(rtt, tuple) and rtt[0] == "dict":
+                        if ltt == "none":
+                            # `None in d`: no key of a dictionary whose keys are never None is None
+                            c = f"(dHas {rt} none)" if (isinstance(rtt[1], tuple) and rtt[1][0] == "opt") else "false"
+                        elif ltt == rtt[1]:
+                            c = f"(dHas {rt} {lt})"
+                        else:
+                            raise Unsupported("membership test types")
+                        parts.append(f"(!{c})" if isinstance(op, ast.NotIn) else c)
+                        lt, ltt = rt, rtt
+                        continue
                     if rtt not in (L(ltt), ("set", ltt)):
                         raise Unsupported("membership test types")
                     c = f"(({rt}).contains {lt})"
@@ -666,12 +776,19 @@ class Kernel:
                 nm = self.fresh()
                 binds.append((nm, f"(match {a0} with | some v => if v ≠ 0 then .ok v else {rhs} | none => {rhs})", "int"))
                 return nm, "int"
+            if isinstance(e.values[1], (ast.Tuple, ast.List)) and not e.values[1].elts and isinstance(ta0, tuple) and ta0[0] == "opt" \
+                    and isinstance(ta0[1], tuple) and ta0[1][0] in ("list", "set"):
+                # `xs or ()` for a collection-or-None: the collection (an empty one and None both give the empty tuple)
+                return f"(({a0}).getD [])", ta0[1]
             sub = []
             a, ta = self.expr(e.values[0], env, sub)
             b, tb = self.expr(e.values[1], env, sub)
             if not sub and ta == O("str") and tb == "str":
                 # `x or "default"` for a str-or-None x: x when it is a non-empty str
                 return f"(match {a} with | some (c :: cs) => (c :: cs) | _ => {b})", "str"
+            if not sub and tb == "emptylist" and isinstance(ta, tuple) and ta[0] == "opt" and isinstance(ta[1], tuple) and ta[1][0] in ("list", "set"):
+                # `xs or ()` for a collection-or-None: the collection (an empty one and None both give the empty tuple)
+                return f"(({a}).getD [])", ta[1]
         if isinstance(e, ast.BoolOp):
             # short-circuit; later operands may be impure (`self.rows and isinstance(self.rows[0], Gap)`)
             is_and = isinstance(e.op, ast.And)
@@ -806,6 +923,29 @@ class Kernel:
         path = dotted(f)
         if path and path.split(".")[0] in self.aliases:
             path = ".".join([self.aliases[path.split(".")[0]]] + path.split(".")[1:])
+        if isinstance(f, ast.Attribute):
+            hit = self.kmethod(f, env)
+            if hit:
+                return self.kcall(hit[0], hit[1], e, env, binds)
+            if self.spec.get("p2") and f.attr == "setdefault" and len(e.args) == 2 and not e.keywords and isinstance(f.value, ast.Name) \
+                    and isinstance(env.get(f.value.id), tuple) and env[f.value.id][0] == "dict" and env[f.value.id][2] == "aref" and "heap_a" in env:
+                # d.setdefault(key, Assembly(...)): the reference stored under the key; a new object is allocated only when the key is new
+                d = f.value.id
+                k, tk = self.expr(e.args[0], env, binds)
+                k = self.coerce(k, tk, env[d][1])
+                v, tv = self.expr(e.args[1], env, binds)
+                if tv != "asmobj":
+                    raise Unsupported("setdefault default type")
+                nm = self.fresh("sd")
+                binds.append((nm, f"(PyRt.refSetDefault {mg(d)} heap_a {k} {v})", ("raw", f"({lean_ty(env[d])} × {lean_ty(env['heap_a'])} × Nat)"), "let"))
+                binds.append((mg(d), f"{nm}.1", env[d], "let"))
+                binds.append(("heap_a", f"{nm}.2.1", env["heap_a"], "let"))
+                self.let_log += [d, "heap_a"]
+                return f"{nm}.2.2", "aref"
+        if self.spec.get("p2") and isinstance(f, ast.Name):
+            r = self.p2_builtin(f.id, e, env, binds)
+            if r is not None:
+                return r
         if path and path in self.spec.get("alloc_calls", {}) and "store" in env:
             # a call that CREATES an OverlapResult (or returns None): the new object gets the next free place in the store, the value is a reference
             argt = self.spec["alloc_calls"][path]
@@ -1273,6 +1413,28 @@ class Kernel:
                     binds.append((name, term, ("raw", ty_txt), "let"))
                 return f"{nm}.1", tc[1]
             b, tb = self.expr(f.value, env, binds)
+            if tb in ("tsink", "tabres") and m in ("new_header", "new_row", "new_cell", "new_line"):
+                self.sink_args(e.args, env, binds)          # building the report: nothing is kept
+                return "()", "tsink"
+            if tb == "str" and m == "replace" and len(e.args) == 2:
+                xs = []
+                for a in e.args:
+                    t, ty = self.expr(a, env, binds)
+                    if ty == O("str"):
+                        nm = self.fresh()
+                        binds.append((nm, f"(PyRt.needArg {t})", "str"))     # replace(None, …): TypeError
+                        t, ty = nm, "str"
+                    if ty != "str":
+                        raise Unsupported("replace() argument")
+                    xs.append(t)
+                return f"(PyRt.strReplace {b} {xs[0]} {xs[1]})", "str"
+            if tb == "str" and m == "startswith" and len(e.args) == 1 and not isinstance(e.args[0], ast.Constant):
+                t, ty = self.expr(e.args[0], env, binds)
+                if ty != "str":
+                    raise Unsupported("startswith() argument")
+                return f"(startsWith {t} {b})", "bool"
+            if isinstance(tb, tuple) and tb[0] == "dict" and m == "keys" and not e.args:
+                return f"(({b}).map (fun kv => kv.1))", L(tb[1])
             if tb == "ovref" and m == "trim_fragment" and len(e.args) == 3 and "nextOid" in env:
                 # a mutating method reached through a reference, used as an expression: the store and the object-id counter move on
                 args = [self.expr(a, env, binds) for a in e.args]
@@ -1369,6 +1531,350 @@ class Kernel:
                 return tmpl.format(b, *args), rty
         raise Unsupported("call " + (path or type(f).__name__))
 
+    # ---------------------------------------------------------------------------------------------------------- phase 2: more of Python
+    def keys_of(self, t, ty):
+        """iterating a dictionary gives its keys (insertion order)"""
+        if isinstance(ty, tuple) and ty[0] == "dict":
+            return f"(({t}).map (fun kv => kv.1))", L(ty[1])
+        if isinstance(ty, tuple) and ty[0] == "set":
+            return t, L(ty[1])
+        return t, ty
+
+    def sink_args(self, args, env, binds):
+        """arguments of a call on a report object (TerminalTable …): evaluated for the exceptions they may raise, the values are dropped.
+        Module-level style constants (names that are neither variables nor parameters) are skipped; an f-string evaluates its fields."""
+        for a in args:
+            if isinstance(a, ast.Name) and self.aliases.get(a.id, a.id) not in env and a.id not in self.spec.get("params", {}):
+                continue
+            if isinstance(a, ast.JoinedStr):
+                for v in a.values:
+                    if isinstance(v, ast.FormattedValue):
+                        self.expr(v.value, env, binds)
+                continue
+            self.expr(a, env, binds)
+
+    def p2_builtin(self, n, e, env, binds):
+        if n == "ChrGroup" and ("ChrGroup", "__init__") in KM and "heap_g" in env:
+            self.kcall(KM[("ChrGroup", "__init__")], ("alloc_g",), e, env, binds)
+            return self.alloc_ref, "gref"
+        if n in SINK_CLASSES and not e.args and not e.keywords:
+            return "false", "tabres"
+        if n == "Assembly" and len(e.args) == 1 and [k.arg for k in e.keywords] == ["curated"]:
+            nm, tn = self.expr(e.args[0], env, binds)
+            cu, tc = self.expr(e.keywords[0].value, env, binds)
+            if tn != "str" or tc != "bool":
+                raise Unsupported("Assembly(name, curated=…) types")
+            return f"({{ name := {nm}, curated := {cu} }} : PyRt.AsmObj)", "asmobj"
+        if e.keywords:
+            return None
+        if n == "ord" and len(e.args) == 1 and isinstance(e.args[0], ast.Constant) and isinstance(e.args[0].value, str) and len(e.args[0].value) == 1:
+            return f"({ord(e.args[0].value)} : Int)", "int"
+        if n == "chr" and len(e.args) == 1:
+            t, ty = self.expr(e.args[0], env, binds)
+            if ty != "int":
+                raise Unsupported("chr() of a non-int")
+            nm = self.fresh()
+            binds.append((nm, f"(PyRt.chr {t})", "str"))
+            return nm, "str"
+        if n == "max" and len(e.args) == 1:
+            t, ty = self.expr(e.args[0], env, binds)
+            if ty != L("int"):
+                raise Unsupported("max() of a non-list-of-int")
+            nm = self.fresh()
+            binds.append((nm, f"(PyRt.maxList {t})", "int"))
+            return nm, "int"
+        if n in ("list", "set") and len(e.args) == 1:
+            t, ty0 = self.expr(e.args[0], env, binds)
+            t, ty = self.keys_of(t, ty0)
+            if not (isinstance(ty, tuple) and ty[0] == "list"):
+                raise Unsupported(f"{n}() of {ty}")
+            if n == "set":
+                if not (isinstance(ty0, tuple) and ty0[0] in ("dict", "set")):
+                    raise Unsupported("set() of something that may hold duplicates")
+                return t, ("set", ty[1])
+            return t, ty
+        if n == "str" and len(e.args) == 1:
+            t, ty = self.expr(e.args[0], env, [])
+            if ty == O("str"):
+                t, ty = self.expr(e.args[0], env, binds)
+                return f"(PyRt.optStrText {t})", "str"
+        if n == "len" and len(e.args) == 1:
+            t, ty = self.expr(e.args[0], env, [])
+            if isinstance(ty, tuple) and ty[0] == "dict":
+                t, ty = self.expr(e.args[0], env, binds)
+                return f"(Int.ofNat ({t}).length)", "int"
+        if n == "sorted" and len(e.args) == 1:
+            t, ty = self.expr(e.args[0], env, binds)
+            if ty in (L("str"), ("set", "str")):
+                return f"(stableSort strLe {t})", L("str")
+            raise Unsupported("sorted() without a key of " + str(ty))
+        return None
+
+    def p2_call_stmt(self, c, rest, env, loop, binds):
+        f = c.func
+        m = f.attr
+        hit = self.kmethod(f, env)
+        if hit:
+            self.kcall(hit[0], hit[1], c, env, binds)        # the value (if any) is dropped
+            return self.with_binds(binds, self.block(rest, env, loop))
+        # D.get(k1).setdefault(k2, []).append(v) on the haplotype → original name → scaffolds dictionary of a ChrGroup
+        if m == "append" and len(c.args) == 1 and not c.keywords and isinstance(f.value, ast.Call) and isinstance(f.value.func, ast.Attribute) \
+                and f.value.func.attr == "setdefault" and len(f.value.args) == 2 and isinstance(f.value.args[1], ast.List) and not f.value.args[1].elts \
+                and isinstance(f.value.func.value, ast.Call) and isinstance(f.value.func.value.func, ast.Attribute) and f.value.func.value.func.attr == "get" \
+                and len(f.value.func.value.args) == 1:
+            place = f.value.func.value.func.value
+            d, td = self.expr(place, env, binds)
+            if td != GDATA:
+                raise Unsupported("get().setdefault().append() on another dictionary shape")
+            k1, t1 = self.expr(f.value.func.value.args[0], env, binds)
+            k2, t2 = self.expr(f.value.args[0], env, binds)
+            v, tv = self.expr(c.args[0], env, binds)
+            if (t1, t2, tv) != ("str", O("str"), "bsref"):
+                raise Unsupported("get().setdefault().append() types")
+            nm = self.fresh("ga")
+            binds.append((nm, f"(PyRt.gdataAppend {d} {k1} {k2} {v})", GDATA))
+            lines, env2 = self.store_back(place, nm, GDATA, env)
+            return self.with_binds(binds, lines + self.block(rest, env2, loop))
+        if m == "mark_error" and not c.args and isinstance(f.value, ast.Name) and env.get(f.value.id) == "tabres":
+            return [self.let(f.value.id, "tabres", "true")] + self.block(rest, env, loop)
+        if m == "sort" and not c.args and {k.arg for k in c.keywords} <= {"key", "reverse"} and any(k.arg == "key" for k in c.keywords):
+            # xs.sort(key=K[, reverse=True]): the keys are computed first (a failure leaves the list as it was), then a stable sort
+            key = [k.value for k in c.keywords if k.arg == "key"][0]
+            rev = [k.value for k in c.keywords if k.arg == "reverse"]
+            if rev and not (isinstance(rev[0], ast.Constant) and rev[0].value is True):
+                raise Unsupported("sort(reverse=…)")
+            xs, tx = self.expr(f.value, env, binds)
+            if isinstance(tx, tuple) and tx[0] == "opt" and isinstance(tx[1], tuple) and tx[1][0] == "list":
+                nm0 = self.fresh()
+                binds.append((nm0, f"(PyRt.needObj {xs})", tx[1]))       # None.sort: AttributeError
+                xs, tx, was_opt = nm0, tx[1], True
+            else:
+                was_opt = False
+            if not (isinstance(tx, tuple) and tx[0] == "list"):
+                raise Unsupported("sort of a non-list")
+            if isinstance(key, ast.Lambda) and len(key.args.args) == 1:
+                v, body = key.args.args[0].arg, key.body
+            elif isinstance(key, ast.Name) and key.id in getattr(self, "local_defs", {}):
+                fn = self.local_defs[key.id]
+                if len(fn.args.args) != 1 or len(fn.body) != 1 or not isinstance(fn.body[0], ast.Return):
+                    raise Unsupported("sort key function shape")
+                v, body = fn.args.args[0].arg, fn.body[0].value
+            else:
+                raise Unsupported("sort key")
+            env2 = dict(env)
+            env2[v] = tx[1]
+            kb = []
+            kt, kty = self.expr(body, env2, kb)
+            if any(len(b) > 3 and b[3] == "let" and b[0] in env for b in kb):
+                raise Unsupported("sort key with side effects")
+            kterm = self.wrap_term(kb, f"(.ok {kt})")
+            fn_ = f"(fun ({mg(v)} : {lean_ty(tx[1])}) => {kterm})"
+            nm = self.fresh("so")
+            if kty == "int" and rev:
+                binds.append((nm, f"(PyRt.sortedByMDesc {fn_} {xs})", tx))
+            elif kty == "int":
+                binds.append((nm, f"(PyRt.sortedByM {fn_} {xs})", tx))
+            elif kty == ("tuple", ["int", L("keytok")]) and not rev:
+                binds.append((nm, f"(PyRt.sortedByKeyLt? PyRt.smartKeyLt? {fn_} {xs})", tx))
+            else:
+                raise Unsupported(f"sort key type {kty}")
+            lines, env3 = self.store_back(f.value, f"(some {nm})" if was_opt else nm, O(tx) if was_opt else tx, env)
+            return self.with_binds(binds, lines + self.block(rest, env3, loop))
+        if m == "add_scaffold" and len(c.args) == 1 and not c.keywords and isinstance(f.value, ast.Name) and env.get(f.value.id) == "aref" and "heap_a" in env:
+            v, tv = self.expr(c.args[0], env, binds)
+            if tv != "bsref":
+                raise Unsupported("Assembly.add_scaffold argument")
+            return self.with_binds(binds, [self.let("heap_a", env["heap_a"], f"PyRt.aSet heap_a {mg(f.value.id)} (fun a => {{ a with scaffolds := a.scaffolds ++ [{v}] }})")]
+                                   + self.block(rest, env, loop))
+        if m == "append" and len(c.args) == 1 and not c.keywords and dotted(f.value) in self.spec.get("dict_roots", {}):
+            nm_ = dotted(f.value).replace(".", "_")
+            tc = env[nm_]
+            if isinstance(tc, tuple) and tc[0] == "opt" and isinstance(tc[1], tuple) and tc[1][0] == "list":
+                lst = self.fresh()
+                binds.append((lst, f"(PyRt.needObj {mg(nm_)})", tc[1]))      # None.append: AttributeError
+                v, tv = self.expr(c.args[0], env, binds)
+                return self.with_binds(binds, [self.let(nm_, tc, f"(some ({lst} ++ [{self.coerce_elem(v, tv, tc[1][1])}]))")] + self.block(rest, env, loop))
+        if m in ("new_header", "new_row", "new_cell", "new_line"):
+            t, ty = self.call(c, env, binds)
+            if ty == "tsink":
+                return self.with_binds(binds, self.block(rest, env, loop))
+        return None
+
+    # ---------------------------------------------------------------------------------------------------------- calls of translated kernels (phase 2)
+    def kmethod(self, f, env):
+        """is `f` (an ast.Attribute used as a callee) a method that is a translated kernel?  -> (lean name, receiver description) or None"""
+        if not self.spec.get("p2"):
+            return None
+        m, v = f.attr, f.value
+        cls = self.spec.get("cls")
+        if isinstance(v, ast.Name) and v.id == "self" and cls and (cls, m) in KM:
+            return KM[(cls, m)], ("self",)
+        if isinstance(v, ast.Name) and v.id in self.spec.get("field_objects", {}) and (self.spec["field_objects"][v.id], m) in KM:
+            return KM[(self.spec["field_objects"][v.id], m)], ("fields", v.id)
+        if dotted(v) in self.spec.get("path_objects", {}) and (self.spec["path_objects"][dotted(v)], m) in KM:
+            return KM[(self.spec["path_objects"][dotted(v)], m)], ("path", dotted(v))
+        if isinstance(v, ast.Name):
+            ty = env.get(self.aliases.get(v.id, v.id))
+            if isinstance(ty, str) and ty in REF_CLASS and (REF_CLASS[ty], m) in KM:
+                return KM[(REF_CLASS[ty], m)], ("ref", ty, mg(self.aliases.get(v.id, v.id)))
+        return None
+
+    def recv_read(self, recv, path, want, env, binds):
+        """the current value of the attribute `path` of the receiver of a kernel call"""
+        if recv[0] == "self":
+            node = ast.parse("self." + path, mode="eval").body
+            t, ty = self.expr(node, env, binds)
+            return self.kcoerce(t, ty, want, env, binds)
+        if recv[0] == "fields":
+            n = recv[1] + "_" + path.replace(".", "_")
+            if n not in env:
+                raise Unsupported(f"field {n} of a local object is not known")
+            return self.kcoerce(mg(n), env[n], want, env, binds)
+        if recv[0] == "path":
+            n = (recv[1] + "." + path).replace(".", "_")
+            if n in env:
+                return self.kcoerce(mg(n), env[n], want, env, binds)
+            if n in self.spec.get("params", {}):
+                self.param(mg(n), self.spec["params"][n])
+                return mg(n)
+            raise Unsupported(f"attribute {recv[1]}.{path} is not declared in the caller")
+        if recv[0] == "ref" and recv[1] == "gref" and path == "data":
+            return f"(PyRt.gGet heap_g {recv[2]})"
+        if recv[0] == "ref" and recv[1] == "aref" and ("asmobj", path) in ATTR:
+            return f"(PyRt.aGet heap_a {recv[2]}).{path}"
+        raise Unsupported(f"receiver attribute {path}")
+
+    def recv_write(self, recv, path, term, ty, env, binds):
+        if recv[0] in ("self", "path"):
+            n = (("self" if recv[0] == "self" else recv[1]) + "." + path).replace(".", "_")
+            if n not in env:
+                raise Unsupported(f"the callee changes {n}, which the caller does not declare as a root")
+            binds.append((mg(n), term, env[n], "let"))
+            self.let_log.append(n)
+            return
+        if recv[0] == "fields":
+            n = recv[1] + "_" + path.replace(".", "_")
+            binds.append((mg(n), term, ty, "let"))
+            self.let_log.append(n)
+            self.new_fields = getattr(self, "new_fields", {})
+            self.new_fields[n] = ty
+            return
+        if recv[0] == "ref" and recv[1] == "gref" and path == "data":
+            binds.append(("heap_g", f"(PyRt.gSet heap_g {recv[2]} {term})", env["heap_g"], "let"))
+            self.let_log.append("heap_g")
+            return
+        if recv[0] == "ref" and recv[1] == "aref" and ("asmobj", path) in ATTR:
+            binds.append(("heap_a", f"(PyRt.aSet heap_a {recv[2]} (fun a => {{ a with {path} := {term} }}))", env["heap_a"], "let"))
+            self.let_log.append("heap_a")
+            return
+        if recv[0] == "alloc_g" and path == "data":
+            ref = self.fresh("ref")
+            binds.append((ref, "heap_g.length", "gref", "let"))
+            binds.append(("heap_g", f"(heap_g ++ [{term}])", env["heap_g"], "let"))
+            self.let_log.append("heap_g")
+            self.alloc_ref = ref
+            return
+        raise Unsupported(f"receiver attribute {path} (write)")
+
+    def kcoerce(self, t, ty, want, env, binds):
+        if ty == want:
+            return t
+        if isinstance(ty, tuple) and ty[0] == "dict" and ty[2] == "aref" and want == ("dict", ty[1], "assembly") and "heap_a" in env and "heap_b" in env:
+            return f"(PyRt.asmDictView heap_a heap_b {t})"       # the statistics read a snapshot of the assemblies
+        return self.coerce(t, ty, want)
+
+    def kcall(self, lean, recv, c, env, binds):
+        """a call of a kernel translated EARLIER in the file.  The callee's parameters are filled BY NAME: the python-level parameters from the
+        arguments (positional / keyword), `self_<attr>` from the receiver, the remaining ones (shared arenas …) from the caller's variable of
+        the same name; its results are written back the same way.  Returns (value term, type)."""
+        sig = SIGS.get(lean)
+        if sig is None:
+            raise Unsupported(f"kernel {lean} is not translated (it must come earlier in the file)")
+        cspec, pyargs = sig["spec"], sig["pyargs"]
+        given = {}
+        for i, a in enumerate(c.args):
+            if isinstance(a, ast.Starred) or i >= len(pyargs):
+                raise Unsupported("kernel call arguments")
+            given[pyargs[i]] = a
+        for kw in c.keywords:
+            if kw.arg is None or kw.arg not in pyargs or kw.arg in given:
+                raise Unsupported("kernel call keyword")
+            given[kw.arg] = kw.value
+
+        def callee_path(n):
+            for key in ("dict_roots", "attr_params", "opaque"):
+                for pth in cspec.get(key, {}):
+                    if pth.replace(".", "_") == n:
+                        return pth
+            return None
+        # arguments are evaluated first, left to right (python parameters the callee declares but never uses are evaluated too)
+        argvals = {}
+        for name in [x for x in pyargs if x in given]:
+            t, ty = self.expr(given[name], env, binds)
+            if name in cspec.get("params", {}):
+                argvals[name] = self.kcoerce(t, ty, cspec["params"][name], env, binds)
+        terms = []
+        if sig["fuel"]:
+            self.uses_fuel = True
+            terms.append("fuel")
+        for n, t in sig["params"]:
+            base = n[:-2] if n.endswith("_v") and n[:-2] in RESERVED else n
+            if base in cspec.get("params", {}):
+                if base not in argvals:
+                    raise Unsupported(f"kernel call {lean}: argument {base} is missing")
+                terms.append(argvals[base])
+                continue
+            pth = callee_path(n)
+            if pth and pth.startswith("self."):
+                terms.append(self.recv_read(recv, pth[5:], t, env, binds))
+                continue
+            if pth and pth.split(".")[0] in given:
+                node = given[pth.split(".")[0]]
+                for part in pth.split(".")[1:]:
+                    node = ast.Attribute(value=node, attr=part, ctx=ast.Load())
+                tt, ty = self.expr(node, env, binds)
+                terms.append(self.kcoerce(tt, ty, t, env, binds))
+                continue
+            if n in env:
+                terms.append(mg(n))
+                continue
+            if n in self.spec.get("reads", {}) or n in self.spec.get("params", {}):
+                ty = self.spec.get("reads", {}).get(n) or self.spec["params"][n]
+                self.param(mg(n), ty)
+                terms.append(mg(n))
+                continue
+            raise Unsupported(f"kernel call {lean}: no value for parameter {n}")
+        nm = self.fresh("kc")
+        outs = list(sig["roots"])
+        rparts = [lean_ty(t) for _, t in outs] + ([lean_ty(sig["ret"])] if sig["ret"] != "unit" else [])
+        rty = "Unit" if not rparts else " × ".join(rparts)
+        binds.append((nm, "(" + " ".join([lean] + terms) + ")", ("raw", f"({rty})")))
+        n_parts = len(rparts)
+
+        def proj(k):
+            if n_parts == 1:
+                return nm
+            return nm + "".join(".2" for _ in range(k)) + (".1" if k < n_parts - 1 else "")
+        value = None
+        for k, (n, t) in enumerate(outs):
+            pth = callee_path(n)
+            if n == "yielded_":
+                value = (proj(k), t)
+                continue
+            if pth and pth.startswith("self."):
+                self.recv_write(recv, pth[5:], proj(k), t, env, binds)
+                continue
+            if n in self.spec.get("drop_results", []):
+                continue      # declared in the caller's spec: a value the callee returns UNCHANGED (e.g. the store the fuse generator only reads)
+            if n in env and n in [r for r, _ in self.roots]:
+                binds.append((mg(n), proj(k), env[n], "let"))
+                self.let_log.append(n)
+                continue
+            raise Unsupported(f"kernel call {lean}: result {n} has no place in the caller")
+        if sig["ret"] != "unit":
+            value = (proj(n_parts - 1), sig["ret"])
+        return value if value else ("()", "unit")
+
     # ---------------------------------------------------------------------------------------------------------- statements
     def result_term(self, env, value):
         parts = [mg(r) for r, _ in self.roots]
@@ -1452,6 +1958,10 @@ class Kernel:
             return self.block(rest, env, loop)        # a message for the user: not modelled (like logging)
         if isinstance(s, ast.FunctionDef) and s.name in self.spec.get("inline_closures", []):
             return self.block(rest, env, loop)        # a local helper: its body is inlined at every call (see `inline_closures`)
+        if isinstance(s, ast.FunctionDef) and self.spec.get("p2"):
+            self.local_defs = getattr(self, "local_defs", {})
+            self.local_defs[s.name] = s               # a local function used as a sort key: translated where it is used
+            return self.block(rest, env, loop)
         if isinstance(s, ast.With) and len(s.items) == 1 and isinstance(s.items[0].optional_vars, ast.Name) \
                 and s.items[0].optional_vars.id in self.spec.get("file_lines", {}):
             return self.block(list(s.body) + rest, env, loop)      # `with file.open("rb") as fh:` — fh is the declared sequence of lines
@@ -1592,6 +2102,10 @@ class Kernel:
                 env2 = dict(env)
                 env2[n] = "bool"
                 return [self.let(n, "bool", val)] + self.block(rest, env2, loop)
+        if self.spec.get("p2"):
+            r = self.p2_assign(s, rest, env, loop, binds)
+            if r is not None:
+                return r
         if len(s.targets) > 1:
             # a = b = e
             if not all(isinstance(t, ast.Name) for t in s.targets):
@@ -1732,6 +2246,57 @@ class Kernel:
             return self.with_binds(binds, lines + self.block(rest, env2, loop))
         raise Unsupported("assignment target")
 
+    def p2_assign(self, s, rest, env, loop, binds):
+        tgs = s.targets
+        # self.data = data = {}: a second name for the dictionary attribute
+        if len(tgs) == 2 and isinstance(tgs[0], ast.Attribute) and dotted(tgs[0]) in self.spec.get("dict_roots", {}) and isinstance(tgs[1], ast.Name):
+            nm = dotted(tgs[0]).replace(".", "_")
+            t, ty = self.expr(s.value, env, binds)
+            self.aliases[tgs[1].id] = nm
+            return self.with_binds(binds, [self.let(nm, env[nm], self.coerce(t, ty, env[nm]))] + self.block(rest, env, loop))
+        if len(tgs) != 1:
+            return None
+        tg = tgs[0]
+        # first, *rest = xs
+        if isinstance(tg, ast.Tuple) and len(tg.elts) == 2 and isinstance(tg.elts[0], ast.Name) and isinstance(tg.elts[1], ast.Starred) \
+                and isinstance(tg.elts[1].value, ast.Name):
+            t, ty = self.expr(s.value, env, binds)
+            t, ty = self.keys_of(t, ty)
+            if not (isinstance(ty, tuple) and ty[0] == "list"):
+                raise Unsupported("unpacking of a non-sequence")
+            nm = self.fresh("un")
+            binds.append((nm, f"(PyRt.unpackHead {t})", ("tuple", [ty[1], ty])))
+            l1, env2 = self.bind_var(tg.elts[0].id, f"{nm}.1", ty[1], env)
+            l2, env2 = self.bind_var(tg.elts[1].value.id, f"{nm}.2", ty, env2)
+            return self.with_binds(binds, [l1, l2] + self.block(rest, env2, loop))
+        # d[k] = {} / [] through a second name of a dictionary attribute
+        if isinstance(tg, ast.Subscript) and isinstance(tg.value, ast.Name) and tg.value.id in self.aliases and isinstance(env.get(self.aliases[tg.value.id]), tuple) \
+                and env[self.aliases[tg.value.id]][0] == "dict":
+            d = self.aliases[tg.value.id]
+            td = env[d]
+            k, tk = self.expr(tg.slice, env, binds)
+            v, tv = self.expr(s.value, env, binds)
+            if tk != td[1]:
+                raise Unsupported("dict item assignment types")
+            return self.with_binds(binds, [self.let(d, td, f"dSet {d} {k} {self.coerce(v, tv, td[2])}")] + self.block(rest, env, loop))
+        # scffld.name = … through a reference to a fused Scaffold
+        if isinstance(tg, ast.Attribute) and isinstance(tg.value, ast.Name) and env.get(tg.value.id) == "bsref" and "heap_b" in env and ("scaffold", tg.attr) in ATTR \
+                and tg.attr in ("name",):
+            t, ty = self.expr(s.value, env, binds)
+            want = ATTR[("scaffold", tg.attr)][0]
+            fld = ATTR[("scaffold", tg.attr)][1].format("").lstrip(".")
+            return self.with_binds(binds, [self.let("heap_b", env["heap_b"], f"PyRt.bsSet heap_b {mg(tg.value.id)} (fun sc => {{ sc with {fld} := {self.coerce(t, ty, want)} }})")]
+                                   + self.block(rest, env, loop))
+        # obj = Class(...) for a local object kept field by field
+        if isinstance(tg, ast.Name) and tg.id in self.spec.get("field_objects", {}) and isinstance(s.value, ast.Call) and isinstance(s.value.func, ast.Name) \
+                and s.value.func.id == self.spec["field_objects"][tg.id] and (s.value.func.id, "__init__") in KM:
+            self.new_fields = {}
+            self.kcall(KM[(s.value.func.id, "__init__")], ("fields", tg.id), s.value, env, binds)
+            env2 = dict(env)
+            env2.update(self.new_fields)
+            return self.with_binds(binds, self.block(rest, env2, loop))
+        return None
+
     def tuple_arg(self, node, want, env, binds):
         """an ast.Tuple written where a record-like tuple type is expected: translated component by component"""
         xs = [self.expr(x, env, binds) for x in node.elts]
@@ -1843,6 +2408,10 @@ class Kernel:
             return self.with_binds(binds, lets + self.block(rest, env, loop))
         if path and path.startswith("logging."):
             return self.block(rest, env, loop)          # log output is never modelled (its arguments are not evaluated here)
+        if isinstance(f, ast.Attribute) and self.spec.get("p2"):
+            r = self.p2_call_stmt(c, rest, env, loop, binds)
+            if r is not None:
+                return r
         if path and path in self.spec.get("opaque", {}):
             t, ty = self.call(c, env, binds)
             return self.with_binds(binds, self.block(rest, env, loop))
@@ -2098,6 +2667,19 @@ class Kernel:
         binds = []
         test = s.test
         pre, env1 = [], env
+        if self.spec.get("p2") and not exits(s.body) and not exits(s.orelse):
+            # a local FIRST assigned on every path of this `if` (declared in the kernel's `locals`) exists afterwards: it gets a placeholder value
+            # that every path overwrites, and is then joined like the variables that existed before
+            fresh_ = [n for n in sorted(set(assigned(list(s.body) + list(s.orelse)))) if n not in env and n in self.spec.get("locals", {})
+                      and definitely_assigns(s.body, n) and definitely_assigns(s.orelse, n)]
+            if fresh_:
+                env = dict(env)
+                pre_ = []
+                for n in fresh_:
+                    ty_ = self.spec["locals"][n]
+                    env[n] = ty_
+                    pre_.append(self.let(n, ty_, DEFAULT_OF(ty_)))
+                return pre_ + self.if_stmt(s, rest, env, loop)
         if isinstance(test, ast.NamedExpr):
             # `if seq := chunk.read(want):`  /  `if m := row.tags:`
             asg = ast.Assign(targets=[ast.Name(id=test.target.id, ctx=ast.Store())], value=test.value)
@@ -2128,6 +2710,33 @@ class Kernel:
             x = test.id
             env_t = dict(env)
             env_t[x] = env[x][1]
+            if self.spec.get("p2") and not exits(s.body) and not exits(s.orelse):
+                # exit-free branches: joined (the continuation is translated once), as for a plain `if`
+                names = [self.aliases.get(n, n) for n in assigned(list(s.body) + list(s.orelse))]
+                join = []
+                for n in sorted(set(names)):
+                    if n in env and n != x and n not in [j for j, _ in join]:
+                        join.append((n, env[n]))
+                if join:
+                    log0 = len(self.let_log)
+                    a = self.block_join(list(s.body), env_t, join)
+                    b = self.block_join(list(s.orelse), env, join)
+                    self.check_carried(log0, {k: v for k, v in env.items() if k != x}, [n for n, _ in join], "the joined `if`")
+                    nm = self.fresh("j")
+                    head = [f"(match {mg(x)} with", "| some (c_ :: cs_) =>", f"  let {mg(x)} : {lean_ty(env[x][1])} := c_ :: cs_"] + ind(a) + ["| _ =>"] + ind(b) \
+                        + [f") >>= fun ({nm} : {self.state_ty(join)}) =>"]
+                    lets = []
+                    if len(join) == 1:
+                        lets.append(self.let(join[0][0], join[0][1], nm))
+                    else:
+                        proj = nm
+                        for k, (n, t) in enumerate(join):
+                            if k < len(join) - 1:
+                                lets.append(self.let(n, t, f"{proj}.1"))
+                                proj = f"{proj}.2"
+                            else:
+                                lets.append(self.let(n, t, proj))
+                    return head + lets + self.block(rest, env, loop)
             a_t = self.block(list(s.body) + ([] if always_exits(s.body) else rest), env_t, loop)
             b_some = self.block(list(s.orelse) + ([] if (s.orelse and always_exits(s.orelse)) else rest), env_t, loop)
             b_none = self.block(list(s.orelse) + ([] if (s.orelse and always_exits(s.orelse)) else rest), env, loop)
@@ -2173,6 +2782,11 @@ class Kernel:
             inner_test = others[0] if len(others) == 1 else ast.BoolOp(op=ast.And(), values=others)
             inner = ast.If(test=inner_test, body=s.body, orelse=s.orelse)
             return self.if_stmt(ast.If(test=notnone, body=[inner], orelse=s.orelse), rest, env, loop)
+        if isinstance(test, ast.UnaryOp) and isinstance(test.op, ast.Not) and isinstance(test.operand, ast.Name) and self.spec.get("p2") \
+                and (env.get(test.operand.id) == O("str") or (isinstance(env.get(test.operand.id), tuple) and env[test.operand.id][0] == "opt"
+                                                              and isinstance(env[test.operand.id][1], tuple) and env[test.operand.id][1][0] in ("list", "set", "dict"))):
+            # NORMAL FORM: `if not x: A else: B` is `if x: B else: A` (so that x is narrowed in B and after an A that always exits)
+            return self.if_stmt(ast.If(test=test.operand, body=list(s.orelse) or [ast.Pass()], orelse=list(s.body)), rest, env, loop)
         c, tc = self.expr(test, env, binds)
         c = self.truthy(c, tc)
         if not exits(s.body) and not exits(s.orelse):
@@ -2308,6 +2922,12 @@ class Kernel:
         if isinstance(it, ast.Call) and isinstance(it.func, ast.Name) and it.func.id == "enumerate" and len(it.args) == 1 and not it.keywords \
                 and isinstance(s.target, ast.Tuple) and len(s.target.elts) == 2 and all(isinstance(x, ast.Name) for x in s.target.elts):
             t, ty = self.expr(it.args[0], env, binds)
+            if self.spec.get("p2"):
+                if isinstance(ty, tuple) and ty[0] == "opt" and isinstance(ty[1], tuple) and ty[1][0] == "list":
+                    nm = self.fresh()
+                    binds.append((nm, f"(PyRt.needIter {t})", ty[1]))      # enumerate(None): TypeError
+                    t, ty = nm, ty[1]
+                t, ty = self.keys_of(t, ty)
             if not (isinstance(ty, tuple) and ty[0] == "list"):
                 raise Unsupported("enumerate of a non-list")
             i, x = s.target.elts[0].id, s.target.elts[1].id
@@ -2336,6 +2956,8 @@ class Kernel:
                 t, ty = nm, ty[1]
             if isinstance(ty, tuple) and ty[0] == "set":
                 ty = L(ty[1])
+            if isinstance(ty, tuple) and ty[0] == "dict" and self.spec.get("p2"):
+                t, ty = self.keys_of(t, ty)
             if not (isinstance(ty, tuple) and ty[0] == "list"):
                 raise Unsupported("loop over a non-list")
             env_body[s.target.id] = ty[1]
@@ -2407,6 +3029,9 @@ def translate(spec):
         return f"/- {rel}::{qual}: not found in the source -/\ndef {lean_name}_UNSUPPORTED : Unit := ()\n"
     src = ast.get_source_segment(text, fn) or ""
     doc = "\n".join("    " + x for x in src.splitlines()).replace("-/", "- /")
+    if (spec.get("p2") or spec.get("km")) and "." in qual:
+        spec.setdefault("cls", qual.split(".")[0])
+        KM[(qual.split(".")[0], qual.split(".")[-1])] = lean_name       # registered before the body is translated only for lookup by LATER kernels (SIGS is filled at the end)
     k = Kernel(spec)
     try:
         k.ret_ty = spec.get("returns", "unit")
@@ -2462,6 +3087,9 @@ def translate(spec):
             k.roots.append((nm, ty))
             if p not in spec.get("init_empty", []):
                 k.param(nm, ty)
+        for p, ty in spec.get("reads", {}).items():
+            env[p] = ty                     # a shared arena (or other value) the kernel only reads: a parameter, not a result
+            k.param(p, ty)
         for p, ty in spec.get("params", {}).items():
             if ty in ("sink_str", "sink_bytes"):
                 env[p] = ty
@@ -2503,12 +3131,14 @@ def translate(spec):
     if k.ret_ty != "unit":
         parts.append(lean_ty(k.ret_ty))
     rty = "Unit" if not parts else " × ".join(parts)
-    sink_inits = [f"  let {mg(n)} : {lean_ty(t)} := {'0' if t == 'int' else '[]'}" for n, t in k.roots if t in ("sink_str", "sink_bytes") or n == "yielded_" or n in ("heap_sc", "heap_b") or (n in ("heap_lo", "added_lo") and spec.get("leftover_arena")) or n in spec.get("extra_roots", {}) or n in [p.replace(".", "_") for p in spec.get("init_empty", [])]]
+    sink_inits = [f"  let {mg(n)} : {lean_ty(t)} := {'0' if t == 'int' else ('none' if isinstance(t, tuple) and t[0] == 'opt' else '[]')}" for n, t in k.roots if t in ("sink_str", "sink_bytes") or n == "yielded_" or (n in ("heap_sc", "heap_b") and n not in spec.get("dict_roots", {})) or (n in ("heap_lo", "added_lo") and spec.get("leftover_arena")) or n in spec.get("extra_roots", {}) or n in [p.replace(".", "_") for p in spec.get("init_empty", [])]]
     # parameter order = the order of the kernel's declaration (params, attr_params, opaque, then newOid): independent of the order of use
-    order = ["fs_exists", "fs_mtime", "fs_open", "store", "nextOid", "heap_ff", "heap_lo"] + [p.replace(".", "_") for p in spec.get("dict_roots", {})] + [mg(n) for n in spec.get("params", {})] + [p.replace(".", "_") for p in spec.get("attr_params", {})] \
+    order = ["fs_exists", "fs_mtime", "fs_open", "store", "nextOid", "heap_ff", "heap_lo"] + list(spec.get("reads", {})) + [p.replace(".", "_") for p in spec.get("dict_roots", {})] + [mg(n) for n in spec.get("params", {})] + [p.replace(".", "_") for p in spec.get("attr_params", {})] \
         + [p.replace(".", "_") for p in spec.get("opaque", {})] + ["newOid"]
     k.params.sort(key=lambda nt: order.index(nt[0]) if nt[0] in order else len(order))
     params = ("(fuel : Nat) " if k.uses_fuel else "") + " ".join(f"({n} : {lean_ty(t)})" for n, t in k.params)
+    SIGS[lean_name] = dict(params=list(k.params), roots=list(k.roots), ret=k.ret_ty, fuel=k.uses_fuel, spec=spec,
+                           pyargs=[a.arg for a in fn.args.args if a.arg != "self"])
     return (f"/- translated from {rel}::{qual}\n{doc}\n-/\ndef {lean_name} {params} : R ({rty}) :=\n" + "\n".join(sink_inits + ["  " + l for l in lines]) + "\n")
 
 
@@ -2674,7 +3304,7 @@ IMP_KERNELS_13 = [
     dict(file="assembly/assembly.py", qual="Assembly.fragment_junction_set", lean="Assembly_fragment_junction_set", returns=JSET,
          attr_params={"self.scaffolds": L("scaffold")}, locals={"junctions": JSET},
          opaque={"scffld.fragment_junction_set": ([], JSET, True)}),
-    dict(file="assembly/assembly_stats.py", qual="AssemblyStats.make_stats", lean="AssemblyStats_make_stats",
+    dict(file="assembly/assembly_stats.py", qual="AssemblyStats.make_stats", lean="AssemblyStats_make_stats", km=True,
          params={"output_assemblies": ("dict", O("str"), "assembly")},
          locals={"input_set": JSET, "output_set": JSET, "output_junction_sets": ("dict", O("str"), JSET)},
          opaque={"self.input_assembly.fragment_junctions_by_asm_prefix": ([], ("dict", O("str"), JSET), True)},
@@ -2701,14 +3331,70 @@ IMP_KERNELS_16 = [
 
 BKEY = ("tuple", [O("str"), O("str"), "str"])
 IMP_KERNELS_17 = [
-    dict(file=BA, qual="BuildAssembly.scaffolds_fused_by_name", lean="BuildAssembly_scaffolds_fused_by_name", heap=True, build_arena=True, build_assembly=True,
+    dict(file=BA, qual="BuildAssembly.scaffolds_fused_by_name", lean="BuildAssembly_scaffolds_fused_by_name", heap=True, km=True, build_arena=True, build_assembly=True,
          yields="bsref", attr_params={"self.default_gap": O("gap"), "self.scaffolds": L("bref")},
          locals={"gap": O("row"), "hap_name_scaffold": ("dict", BKEY, "bsref")}),
 ]
 
 IMP_KERNELS_18 = [
-    dict(file="assembly/assembly.py", qual="Assembly.name_natural_key", lean="Assembly_name_natural_key", returns=L("keytok"),
+    dict(file="assembly/assembly.py", qual="Assembly.name_natural_key", lean="Assembly_name_natural_key", returns=L("keytok"), km=True,
          attr_params={"obj.name": "str"}),
+]
+
+# ---------------------------------------------------------------------------------------------------------------- PHASE 2 (Gen/Imp2.lean)
+HB = L("scaffold")
+CN_ROOTS = {"self.scaffolds": L(("tuple", ["str", "bsref"])), "self.haplotypes_seen": ("dict", "str", "bool"), "self.groups": O(L("gref"))}
+P2_KERNELS = [
+    # ChrGroup: its only attribute is `data`
+    dict(file=NAMER_FILE, qual="ChrGroup.__init__", lean="ChrGroup___init__", p2=True, params={"haplotypes": ("dict", "str", "bool")},
+         dict_roots={"self.data": GDATA}, init_empty=["self.data"]),
+    dict(file=NAMER_FILE, qual="ChrGroup.haplotype_dict", lean="ChrGroup_haplotype_dict", p2=True, params={"hap_name": "str"},
+         attr_params={"self.data": GDATA}, returns=O(HAPSET)),
+    dict(file=NAMER_FILE, qual="ChrGroup.add_scaffold_to_haplotype", lean="ChrGroup_add_scaffold_to_haplotype", p2=True,
+         reads={"heap_b": HB}, params={"hap_name": "str", "scaffold": "bsref"}, dict_roots={"self.data": GDATA}),
+    dict(file=NAMER_FILE, qual="ChrGroup.original_tags_of_haplotype_scaffold", lean="ChrGroup_original_tags_of_haplotype_scaffold", p2=True,
+         reads={"heap_b": HB}, params={"hap_name": "str", "scffld_name": O("str")}, attr_params={"self.data": GDATA}, returns=L("str")),
+    dict(file=NAMER_FILE, qual="ChrGroup.length_of_first_haplotype", lean="ChrGroup_length_of_first_haplotype", p2=True,
+         reads={"heap_b": HB}, attr_params={"self.data": GDATA}, returns="int", locals={"length": "int"}),
+    dict(file=NAMER_FILE, qual="ChrGroup.multi_chr_list", lean="ChrGroup_multi_chr_list", p2=True, params={"chr_name": "str", "multi_count": "int"},
+         returns=L("str"), locals={"chr_list": L("str")}),
+    dict(file=NAMER_FILE, qual="ChrGroup.max_hap_set_count", lean="ChrGroup_max_hap_set_count", p2=True, attr_params={"self.data": GDATA}, returns="int"),
+    dict(file=NAMER_FILE, qual="ChrGroup.name_chromosome", lean="ChrGroup_name_chromosome", p2=True, params={"chr_prefix": "str", "chr_n": "int"},
+         attr_params={"self.data": GDATA}, dict_roots={"heap_b": HB}),
+    # ChrNamer: chr_prefix, scaffolds [(haplotype text, scaffold)], haplotypes_seen {text: True}, groups (None until name_chromosomes)
+    dict(file=NAMER_FILE, qual="ChrNamer.__init__", lean="ChrNamer___init__", p2=True, params={"chr_prefix": "str"},
+         dict_roots={"self.chr_prefix": "str", **CN_ROOTS}, init_empty=["self.chr_prefix"] + list(CN_ROOTS)),
+    dict(file=NAMER_FILE, qual="ChrNamer.add_scaffold", lean="ChrNamer_add_scaffold", p2=True, params={"hap": O("str"), "scffld": "bsref"},
+         dict_roots={"self.scaffolds": CN_ROOTS["self.scaffolds"], "self.haplotypes_seen": CN_ROOTS["self.haplotypes_seen"]}),
+    dict(file=NAMER_FILE, qual="ChrNamer.new_group", lean="ChrNamer_new_group", p2=True, returns="gref",
+         attr_params={"self.haplotypes_seen": CN_ROOTS["self.haplotypes_seen"]}, dict_roots={"heap_g": L(GDATA), "self.groups": CN_ROOTS["self.groups"]}),
+    dict(file=NAMER_FILE, qual="ChrNamer.add_chr_prefix", lean="ChrNamer_add_chr_prefix", p2=True, params={"scffld": "bsref"},
+         attr_params={"self.chr_prefix": "str"}, dict_roots={"heap_b": HB}),
+    dict(file=NAMER_FILE, qual="ChrNamer.check_for_painted_scaffolds_missing_haplotype_tag", lean="ChrNamer_check_for_painted_scaffolds_missing_haplotype_tag", p2=True,
+         attr_params={"self.haplotypes_seen": CN_ROOTS["self.haplotypes_seen"], "self.scaffolds": CN_ROOTS["self.scaffolds"]}, ignore_locals=["untagged"]),
+    # the table check_groups draws is abstracted to "was an error marked" (`tabres`); the cells' texts are evaluated and dropped
+    dict(file=NAMER_FILE, qual="ChrNamer.check_groups", lean="ChrNamer_check_groups", p2=True, returns="tabres", reads={"heap_b": HB, "heap_g": L(GDATA)},
+         attr_params={"self.haplotypes_seen": CN_ROOTS["self.haplotypes_seen"], "self.groups": CN_ROOTS["self.groups"]}),
+    dict(file=NAMER_FILE, qual="ChrNamer.build_groups", lean="ChrNamer_build_groups", p2=True, reads={"heap_b": HB},
+         attr_params={"self.haplotypes_seen": CN_ROOTS["self.haplotypes_seen"], "self.scaffolds": CN_ROOTS["self.scaffolds"]},
+         dict_roots={"heap_g": L(GDATA), "self.groups": CN_ROOTS["self.groups"]}, locals={"last_haplotype": O("str"), "last_orig": O("str")}, ignore_locals=["s"]),
+    dict(file=NAMER_FILE, qual="ChrNamer.name_chromosomes", lean="ChrNamer_name_chromosomes", p2=True,
+         attr_params={"self.haplotypes_seen": CN_ROOTS["self.haplotypes_seen"], "self.scaffolds": CN_ROOTS["self.scaffolds"], "self.chr_prefix": "str"},
+         dict_roots={"heap_b": HB, "heap_g": L(GDATA), "self.groups": CN_ROOTS["self.groups"]}),
+    dict(file="assembly/assembly.py", qual="Assembly.smart_sort_scaffolds", lean="Assembly_smart_sort_scaffolds", p2=True, reads={"heap_b": HB},
+         dict_roots={"self.scaffolds": L("bsref")}),
+    # the driver of phase 2.  The Assembly objects it returns live in `heap_a` (their scaffolds are references into `heap_b`); the statistics
+    # read a snapshot (PyRt.asmDictView).  `self.autosome_prefix` is the property `return self.scaffold_namer.autosome_prefix` (checked).
+    dict(file=BA, qual="BuildAssembly.assemblies_with_scaffolds_fused", lean="BuildAssembly_assemblies_with_scaffolds_fused", p2=True,
+         reads={"store": "store", "heap_lo": L(LO_T)}, drop_results=["store"],
+         field_objects={"chr_namer": "ChrNamer"}, path_objects={"self.assembly_stats": "AssemblyStats"},
+         properties={"self.autosome_prefix": "self.scaffold_namer.autosome_prefix"},
+         attr_params={"self.scaffold_namer": "namer", "self.name": "str", "self.default_gap": O("gap"), "self.scaffolds": L("bref")},
+         params={"self_assembly_stats_input_assembly_fragment_junctions_by_asm_prefix": ("fun", [], ("dict", O("str"), JSET), True)},
+         dict_roots={"heap_b": HB, "heap_g": L(GDATA), "heap_a": L("asmobj"), "self.assembly_stats.breaks": "int", "self.assembly_stats.joins": "int",
+                     "self.assembly_stats.per_assembly_stats": ("dict", "str", ("dict", "str", "int"))},
+         init_empty=["heap_b", "heap_g", "heap_a"], locals={"asm_key": O("str"), "assemblies": ("dict", O("str"), "aref")},
+         returns=("dict", O("str"), "aref")),
 ]
 
 IMP_KERNELS = [
@@ -2776,6 +3462,15 @@ def main():
     txt = "\n".join(parts)
     if not OUT.exists() or OUT.read_text() != txt:
         OUT.write_text(txt)
+    # phase 2 of the remap: a file of its own (it calls kernels of the first file)
+    parts = ["/- GENERATED by harness/translate_imp.py from /repo/src — do not edit -/", "import AgpTpf.Gen.Imp", "import AgpTpf.Model.PyRtPhase2",
+             "set_option linter.unusedVariables false", "namespace AgpTpf.Gen.Imp", "open AgpTpf", ""]
+    for spec in P2_KERNELS:
+        parts.append(translate(spec))
+    parts.append("end AgpTpf.Gen.Imp\n")
+    txt = "\n".join(parts)
+    if not OUT2.exists() or OUT2.read_text() != txt:
+        OUT2.write_text(txt)
     return 0
 
 
